@@ -11,52 +11,52 @@ fn record2(tag: u8, x: f64, y: f64) -> f64 { let r: f64 = kani::any(); unsafe { 
 fn s_sqrt(x: f64) -> f64 { record1(1, x) }  fn s_ln(x: f64) -> f64 { record1(14, x) }  fn s_exp(x: f64) -> f64 { record1(15, x) }
 fn s_powf(x: f64, y: f64) -> f64 { record2(20, x, y) }  fn s_log(x: f64, y: f64) -> f64 { record2(21, x, y) }  fn s_log2(x: f64) -> f64 { record1(17, x) }
 
-// @obligation owners=C06,C15 fn=eval_i64::ast::eval/Add
+// @obligation owners=C06,C15 fn=eval_i64::ast::eval/Add exact=1
 #[kani::proof]
 fn step_add() { let a: i64 = kani::any(); let b: i64 = kani::any(); let e = a as i128 + b as i128;
     match ok(eval(Node::Add(num(a), num(b)))) { Some(v) => assert!(v as i128 == e, "exact sum"), None => assert!(!fits(e), "Err only on overflow") } }
-// @obligation owners=C06,C15 fn=eval_i64::ast::eval/Subtract
+// @obligation owners=C06,C15 fn=eval_i64::ast::eval/Subtract exact=1
 #[kani::proof]
 fn step_subtract() { let a: i64 = kani::any(); let b: i64 = kani::any(); let e = a as i128 - b as i128;
     match ok(eval(Node::Subtract(num(a), num(b)))) { Some(v) => assert!(v as i128 == e, "exact difference"), None => assert!(!fits(e), "Err only on overflow") } }
-// @obligation owners=C06,C15 fn=eval_i64::ast::eval/Multiply
+// @obligation owners=C06,C15 fn=eval_i64::ast::eval/Multiply exact=1
 #[kani::proof]
 fn step_multiply() { let a: i64 = kani::any(); let b: i64 = kani::any();
     match ok(eval(Node::Multiply(num(a), num(b)))) { Some(v) => assert!(a.checked_mul(b) == Some(v), "exact product"), None => assert!(a.checked_mul(b).is_none(), "Err only on overflow") } }
-// @obligation owners=C06 fn=eval_i64::ast::eval/Negative
+// @obligation owners=C06 fn=eval_i64::ast::eval/Negative exact=1
 #[kani::proof]
 fn step_negative() { let a: i64 = kani::any();
     match ok(eval(Node::Negative(num(a)))) { Some(v) => assert!(v as i128 == -(a as i128)), None => assert!(a == i64::MIN, "Err only for i64::MIN") } }
-// @obligation owners=C06,C10 fn=eval_i64::ast::eval/Abs
+// @obligation owners=C06,C10 fn=eval_i64::ast::eval/Abs exact=1
 #[kani::proof]
 fn step_abs() { let a: i64 = kani::any();
     match ok(eval(Node::Abs(num(a)))) { Some(v) => assert!(v >= 0 && (v == a || v as i128 == -(a as i128))), None => assert!(a == i64::MIN, "Err only for i64::MIN") } }
-// @obligation owners=C06,C10 fn=eval_i64::ast::eval/Sign
+// @obligation owners=C06,C10 fn=eval_i64::ast::eval/Sign exact=1
 #[kani::proof]
 fn step_sign() { let a: i64 = kani::any();
     match ok(eval(Node::Sign(num(a)))) { Some(v) => assert!(v == if a > 0 { 1 } else if a < 0 { -1 } else { 0 }), None => assert!(false, "never Err") } }
-// @obligation owners=C06 fn=eval_i64::ast::eval/And
+// @obligation owners=C06 fn=eval_i64::ast::eval/And exact=1
 #[kani::proof]
 fn step_and() { let a: i64 = kani::any(); let b: i64 = kani::any();
     match ok(eval(Node::And(num(a), num(b)))) { Some(v) => assert!(v == a & b), None => assert!(false, "never Err") } }
-// @obligation owners=C06 fn=eval_i64::ast::eval/Or
+// @obligation owners=C06 fn=eval_i64::ast::eval/Or exact=1
 #[kani::proof]
 fn step_or() { let a: i64 = kani::any(); let b: i64 = kani::any();
     match ok(eval(Node::Or(num(a), num(b)))) { Some(v) => assert!(v == a | b), None => assert!(false, "never Err") } }
-// @obligation owners=C06 fn=eval_i64::ast::eval/LeftShift
+// @obligation owners=C06 fn=eval_i64::ast::eval/LeftShift exact=1
 #[kani::proof]
 fn step_left_shift() { let a: i64 = kani::any(); let c: i64 = kani::any();
     match ok(eval(Node::LeftShift(num(a), num(c)))) {
         Some(v) => { assert!(c >= 0 && c <= 63, "a shift count outside 0..63 yields Err");
             let e = (a as i128) << (c as u32); if fits(e) { assert!(v as i128 == e, "x << y = x * 2^y when that fits") } else { assert!(v == ((a as u64) << (c as u32)) as i64, "two's-complement shift") } },
         None => assert!(c < 0 || c > 63, "Err only for an out-of-range count") } }
-// @obligation owners=C06 fn=eval_i64::ast::eval/RightShift
+// @obligation owners=C06 fn=eval_i64::ast::eval/RightShift exact=1
 #[kani::proof]
 fn step_right_shift() { let a: i64 = kani::any(); let c: i64 = kani::any();
     match ok(eval(Node::RightShift(num(a), num(c)))) {
         Some(v) => { assert!(c >= 0 && c <= 63); let e = (a as i128) >> (c as u32); assert!(v as i128 == e, "x >> y = floor(x / 2^y)"); assert!((v as i128) * (1i128 << c) <= a as i128 && (a as i128) < (v as i128 + 1) * (1i128 << c), "floor") },
         None => assert!(c < 0 || c > 63, "Err only for an out-of-range count") } }
-// @obligation owners=C10 fn=eval_i64::ast::eval/Exp2
+// @obligation owners=C10 fn=eval_i64::ast::eval/Exp2 exact=1
 #[kani::proof]
 fn step_exp2() { let a: i64 = kani::any();
     match ok(eval(Node::Exp2(num(a)))) { Some(v) => { if a < 0 { assert!(v == 0) } else { assert!(a <= 62 && v as i128 == 1i128 << (a as u32), "2^x") } }, None => assert!(a > 62, "Err only when 2^x does not fit") } }
@@ -95,7 +95,7 @@ fn step_mod_min_by_minus_one() { assert!(ok(eval(Node::Modulo(num(i64::MIN), num
 
 // ---- n! and ^ -------------------------------------------------------------------------------------------------------
 fn fact128(n: i64) -> i128 { let mut r: i128 = 1; let mut i: i128 = 2; while i <= n as i128 && i <= 25 { r *= i; i += 1; } r }
-// @obligation owners=C06,C10,C15,C01,C02 fn=eval_i64::ast::eval/Factorial
+// @obligation owners=C06,C10,C15,C01,C02 fn=eval_i64::ast::eval/Factorial exact=1
 // full domain: for n >= 21 the product has left i64 after 20 multiplications, so the loop is left with Err whatever n is - the unwinding
 // assertion proves that bound (a loop that runs on to n is an unwinding failure: C02)
 #[kani::proof]
@@ -132,33 +132,33 @@ fn step_pow_exponent_range() { let e: i64 = kani::any(); kani::assume(e < 0 || e
         None => assert!(e < 0 || e > u32::MAX as i64 || a == 2, "Err only for an exponent out of range or a result that does not fit") } }
 
 // ---- real-valued functions of eval_i64: mapping (v as f64).prim() as i64 ------------------------------------------
-// @obligation owners=C10 fn=eval_i64::ast::eval/Sqrt
+// @obligation owners=C10 fn=eval_i64::ast::eval/Sqrt exact=1
 #[kani::proof]
 #[kani::stub(f64::sqrt, s_sqrt)]
 fn step_sqrt() { let a: i64 = kani::any();
     match ok(eval(Node::Sqrt(num(a)))) { Some(v) => assert!(unsafe { CALLS == 1 && TAG == 1 && same(A0, a as f64) && v == RES as i64 }, "sqrt of the argument's double, truncated"), None => assert!(false, "never Err") } }
-// @obligation owners=C10 fn=eval_i64::ast::eval/Ln
+// @obligation owners=C10 fn=eval_i64::ast::eval/Ln exact=1
 #[kani::proof]
 #[kani::stub(f64::ln, s_ln)]
 fn step_ln() { let a: i64 = kani::any();
     match ok(eval(Node::Ln(num(a)))) { Some(v) => assert!(unsafe { CALLS == 1 && TAG == 14 && same(A0, a as f64) && v == RES as i64 }), None => assert!(false, "never Err") } }
-// @obligation owners=C10 fn=eval_i64::ast::eval/Exp
+// @obligation owners=C10 fn=eval_i64::ast::eval/Exp exact=1
 #[kani::proof]
 #[kani::stub(f64::exp, s_exp)]
 fn step_exp() { let a: i64 = kani::any();
     match ok(eval(Node::Exp(num(a)))) { Some(v) => assert!(unsafe { CALLS == 1 && TAG == 15 && same(A0, a as f64) && v == RES as i64 }), None => assert!(false, "never Err") } }
-// @obligation owners=C10 fn=eval_i64::ast::eval/Lb
+// @obligation owners=C10 fn=eval_i64::ast::eval/Lb exact=1
 #[kani::proof]
 #[kani::stub(f64::log, s_log)]
 #[kani::stub(f64::log2, s_log2)]
 fn step_lb() { let a: i64 = kani::any();
     match ok(eval(Node::Lb(num(a)))) { Some(v) => assert!(unsafe { CALLS == 1 && ((TAG == 21 && same(A1, 2.0)) || TAG == 17) && same(A0, a as f64) && v == RES as i64 }, "lb(x) = log(x, 2) or log2(x), truncated"), None => assert!(false, "never Err") } }
-// @obligation owners=C10 fn=eval_i64::ast::eval/Log
+// @obligation owners=C10 fn=eval_i64::ast::eval/Log exact=1
 #[kani::proof]
 #[kani::stub(f64::log, s_log)]
 fn step_log() { let a: i64 = kani::any(); let b: i64 = kani::any();
     match ok(eval(Node::Log(num(a), num(b)))) { Some(v) => assert!(unsafe { CALLS == 1 && TAG == 21 && same(A0, a as f64) && same(A1, b as f64) && v == RES as i64 }, "log(x, b): argument first, base second"), None => assert!(false, "never Err") } }
-// @obligation owners=C10 fn=eval_i64::ast::eval/Root
+// @obligation owners=C10 fn=eval_i64::ast::eval/Root exact=1
 #[kani::proof]
 #[kani::stub(f64::powf, s_powf)]
 fn step_root() { let n: i64 = kani::any(); let x: i64 = kani::any();
